@@ -342,9 +342,74 @@ class Expander(object):
             bound_self = ast.Name(id=func.self_override, ctx=ast.Load())
         return self.instantiate(func, call, target, bound_self, mode, result_target, caller_names, stack, depth)
 
+    def _hoist_nested(self, func, st, caller_names, stack, depth):
+        """helper calls nested inside the expression of a simple statement (`return True, self._h(x)`,
+        `x = 1 + self._h(y)`, `f(self._h(z))`) are evaluated into temporaries in front of the statement, in evaluation
+        order.  Not inside lambdas / comprehensions / conditional sub-expressions, and only when everything the statement
+        evaluates before the call is a plain load (so hoisting cannot change what is observed)."""
+        if isinstance(st, (ast.Expr, ast.Return)):
+            root = st.value
+        elif isinstance(st, (ast.Assign, ast.AugAssign, ast.AnnAssign)):
+            root = st.value
+        else:
+            return [], st
+        if root is None:
+            return [], st
+        pre = []
+        found = []
+
+        def simple(e):
+            return all(isinstance(x, (ast.Name, ast.Constant, ast.Attribute, ast.Load, ast.Tuple, ast.List, ast.Subscript, ast.Store, ast.Starred,
+                                      ast.BinOp, ast.operator, ast.UnaryOp, ast.unaryop, ast.Compare, ast.cmpop, ast.keyword)) for x in ast.walk(e))
+
+        def visit(e, top):
+            # returns False when something not simple was evaluated before (stop hoisting further right)
+            if isinstance(e, (ast.Lambda, ast.ListComp, ast.SetComp, ast.DictComp, ast.GeneratorExp, ast.IfExp, ast.BoolOp)):
+                return False
+            if isinstance(e, ast.Call):
+                ok = True
+                for ch in ([e.func] if not isinstance(e.func, (ast.Name, ast.Attribute)) else []) + list(e.args) + [k.value for k in e.keywords]:
+                    if not visit(ch, False):
+                        ok = False
+                        break
+                if not ok:
+                    return False
+                if not top and self.helper_for(func, e) is not None:
+                    found.append(e)
+                    return True
+                return False if not top else True     # another call: its effects precede whatever follows
+            for ch in ast.iter_child_nodes(e):
+                if isinstance(ch, ast.expr):
+                    if not visit(ch, False):
+                        return False
+            return True
+        visit(root, True)
+        if not found:
+            return [], st
+        for call in found:
+            self.counter += 1
+            tmp = ast.Name(id='val_i%d' % self.counter, ctx=ast.Store())
+            r = self._try_site(func, call, 'assign', tmp, caller_names, stack, depth)
+            if r is None:
+                continue
+            pre.extend(r)
+            load = ast.copy_location(ast.Name(id=tmp.id, ctx=ast.Load()), call)
+
+            class Rep(ast.NodeTransformer):
+                def visit_Call(self, n):
+                    if n is call:
+                        return load
+                    return self.generic_visit(n)
+            st.value = Rep().visit(st.value)
+        return pre, st
+
     def expand_stmt(self, func, st, caller_names, stack, depth, owner):
         if isinstance(st, (ast.FunctionDef, ast.ClassDef)):
             return [st]
+        if isinstance(st, (ast.Expr, ast.Return, ast.Assign, ast.AugAssign, ast.AnnAssign)):
+            pre, st = self._hoist_nested(func, st, caller_names, stack, depth)
+            if pre:
+                return pre + self.expand_stmt(func, st, caller_names, stack, depth, owner)
         if isinstance(st, ast.Expr):
             r = self._try_site(func, st.value, 'expr', None, caller_names, stack, depth)
             if r is not None:
@@ -466,6 +531,8 @@ def _literal_consts(module):
     """module-level NAME = <int/str/bytes literal>, bound exactly once in the module and never declared global"""
     counts = {}
     vals = {}
+    structs = {}
+    derived = set()
     for st in ast.walk(module.tree):
         if isinstance(st, ast.Global):
             for n in st.names:
@@ -483,7 +550,47 @@ def _literal_consts(module):
         if isinstance(st, ast.Assign) and len(st.targets) == 1 and isinstance(st.targets[0], ast.Name) and isinstance(st.value, ast.Constant) \
                 and isinstance(st.value.value, (int, str, bytes)) and not isinstance(st.value.value, bool):
             vals[st.targets[0].id] = st.value
+        elif isinstance(st, ast.Assign) and len(st.targets) == 1 and isinstance(st.targets[0], ast.Name):
+            # a constant expression over constants bound before: sizes computed from other sizes, `<Struct>.size`, len(b'..')
+            # (only sizes derived from struct layouts and int literals: a position such as `FIRST = NAME_SIZE + VERSION_SIZE + 8`
+            # built from named layout constants stays a name, the rules recognise header positions by it)
+            names_in = set(x.id for x in ast.walk(st.value) if isinstance(x, ast.Name) and x.id not in structs and x.id not in ('len', 'struct'))
+            v = _fold(st.value, vals, structs) if names_in <= derived else None
+            if v is not None:
+                vals[st.targets[0].id] = ast.copy_location(ast.Constant(value=v), st.value)
+                derived.add(st.targets[0].id)
+            elif isinstance(st.value, ast.Call) and isinstance(st.value.func, ast.Attribute) and st.value.func.attr == 'Struct' and st.value.args \
+                    and isinstance(st.value.args[0], ast.Constant) and isinstance(st.value.args[0].value, str):
+                structs[st.targets[0].id] = st.value.args[0].value
     return dict((k, v) for k, v in vals.items() if counts.get(k) == 1)
+
+
+def _fold(e, vals, structs):
+    """int value of a module-level constant expression, or None"""
+    import struct as _struct
+    try:
+        if isinstance(e, ast.Constant) and isinstance(e.value, int) and not isinstance(e.value, bool):
+            return e.value
+        if isinstance(e, ast.Name) and e.id in vals and isinstance(vals[e.id].value, int):
+            return vals[e.id].value
+        if isinstance(e, ast.Attribute) and e.attr == 'size' and isinstance(e.value, ast.Name) and e.value.id in structs:
+            return _struct.calcsize(structs[e.value.id])
+        if isinstance(e, ast.Call) and isinstance(e.func, ast.Attribute) and e.func.attr == 'calcsize' and e.args and isinstance(e.args[0], ast.Constant):
+            return _struct.calcsize(e.args[0].value)
+        if isinstance(e, ast.Call) and isinstance(e.func, ast.Name) and e.func.id == 'len' and len(e.args) == 1:
+            a = e.args[0]
+            if isinstance(a, ast.Constant) and isinstance(a.value, (str, bytes)):
+                return len(a.value)
+            if isinstance(a, ast.Name) and a.id in vals and isinstance(vals[a.id].value, (str, bytes)):
+                return len(vals[a.id].value)
+        if isinstance(e, ast.BinOp) and isinstance(e.op, (ast.Add, ast.Sub, ast.Mult, ast.FloorDiv)):
+            l, r = _fold(e.left, vals, structs), _fold(e.right, vals, structs)
+            if l is None or r is None:
+                return None
+            return {ast.Add: l + r, ast.Sub: l - r, ast.Mult: l * r, ast.FloorDiv: (l // r if r else None)}[type(e.op)]
+    except Exception:
+        return None
+    return None
 
 
 class _LiteralSubst(ast.NodeTransformer):
@@ -541,6 +648,11 @@ def _propagate_struct(self):
             def visit_Attribute(self, n):
                 self.generic_visit(n)
                 if isinstance(n.value, ast.Name) and n.value.id in objs and n.attr == 'size' and isinstance(n.ctx, ast.Load):
+                    import struct as _struct
+                    try:
+                        return ast.copy_location(ast.Constant(value=_struct.calcsize(objs[n.value.id].value)), n)
+                    except Exception:
+                        pass
                     new = ast.Call(func=ast.Attribute(value=ast.Name(id='struct', ctx=ast.Load()), attr='calcsize', ctx=ast.Load()),
                                    args=[copy.deepcopy(objs[n.value.id])], keywords=[])
                     return ast.fix_missing_locations(ast.copy_location(new, n))
@@ -572,6 +684,7 @@ def _propagate_aliases(self):
             if isinstance(n, ast.Name) and isinstance(n.ctx, (ast.Store, ast.Del)):
                 stores[n.id] = stores.get(n.id, 0) + 1
         cands = {}
+        elem_cands = set()
         for n in ast.walk(f.node):
             if isinstance(n, ast.Assign) and len(n.targets) == 1 and isinstance(n.targets[0], ast.Name) and stores.get(n.targets[0].id) == 1 \
                     and n.targets[0].id not in f.params:
@@ -589,6 +702,15 @@ def _propagate_aliases(self):
                         if not any(tn in P.classes and P.lookup_method(P.classes[tn], v.attr) is not None for tn in types):
                             continue
                     cands[n.targets[0].id] = (n, v, attr)
+                elif isinstance(v, ast.Subscript) and isinstance(v.value, ast.Attribute) and isinstance(v.value.value, ast.Name) and v.value.value.id == sn \
+                        and isinstance(v.slice, (ast.Constant, ast.Name)):
+                    # an element looked up once and then only called: `method = self._table[key]` ... `method(*args)`
+                    nm = n.targets[0].id
+                    uses = [x for x in ast.walk(f.node) if isinstance(x, ast.Name) and x.id == nm and isinstance(x.ctx, ast.Load)]
+                    called = [c for c in ast.walk(f.node) if isinstance(c, ast.Call) and isinstance(c.func, ast.Name) and c.func.id == nm]
+                    if uses and len(uses) == len(called):
+                        cands[nm] = (n, v, v.value.attr)
+                        elem_cands.add(nm)
         if not cands:
             continue
         try:
@@ -616,11 +738,16 @@ def _propagate_aliases(self):
                                 attrs.add(a_)
                             if isinstance(y, ast.Subscript) and P.self_attr(y.value, sn) == '__dict__':
                                 attrs.add('*')
+                            if isinstance(y, ast.Subscript) and P.self_attr(y.value, sn) and isinstance(getattr(y, 'ctx', None), (ast.Store, ast.Del)):
+                                attrs.add('E:' + P.self_attr(y.value, sn))
                 if isinstance(x, ast.Call):
                     r = P.resolve_call(f, x)
                     if r.kind == 'method':
                         for t in r.targets:
                             attrs |= P.rebinds(t)
+                            attrs |= set('E:' + w_[2:] for w_ in P.writes(t) if w_.startswith('A:'))
+                    if isinstance(x.func, ast.Attribute) and P.self_attr(x.func.value, sn) and x.func.attr in ('pop', 'clear', 'update', 'setdefault', 'popitem', '__setitem__'):
+                        attrs.add('E:' + P.self_attr(x.func.value, sn))
             for a_ in attrs:
                 rebind_nodes.setdefault(a_, set()).add(node.id)
         subst = {}
@@ -630,6 +757,14 @@ def _propagate_aliases(self):
                 continue
             d = dn[0].id
             rb = rebind_nodes.get(attr, set()) | rebind_nodes.get('*', set())
+            if name in elem_cands:
+                rb = rb | rebind_nodes.get('E:' + attr, set())
+                if isinstance(val.slice, ast.Name):
+                    # ... and a new value of the key
+                    for node in g.nodes:
+                        if node.ast is not None and node.kind in ('stmt', 'iter', 'with') and node.id != d and any(
+                                isinstance(x, ast.Name) and x.id == val.slice.id and isinstance(x.ctx, (ast.Store, ast.Del)) for x in ast.walk(node.ast if node.kind != 'iter' else node.ast.target)):
+                            rb = rb | {node.id}
             after_def = g.reachable_from(d)
             danger = set()
             for r_ in rb:
